@@ -48,11 +48,13 @@ pub fn scenario(seed: u64, stepping: Option<Stepping>) -> Made {
         _ => Stepping::Lazy,
     });
     w.set_stepping(s);
-    let topo = rng.below(3);
+    let topo = rng.below(4);
     let ifs = match topo {
         0 => scen::single_v4(),
         1 => scen::single_dual(),
-        _ => scen::two_v4(),
+        2 => scen::two_v4(),
+        // two links, both families on each: the host has one link-local address per link
+        _ => vec![IfSpec::new("eth0", 2, 0, &[("10.0.0.5", 24), ("fe80::5", 64)]), IfSpec::new("eth1", 3, 1, &[("192.168.1.5", 24), ("fe80::6", 64)])],
     };
     let h = w.add_host(ifs.clone());
     let t0 = w.now();
@@ -151,13 +153,13 @@ pub fn scenario(seed: u64, stepping: Option<Stepping>) -> Made {
                 // the responder (re-)announces addresses, owner spelled in some case
                 let owner = rng.pick(&variants).clone();
                 let ttl = *rng.pick(ttl_menu);
-                let ifi = if topo == 2 && rng.chance(1, 2) { 3 } else { 2 };
+                let ifi = if topo >= 2 && rng.chance(1, 2) { 3 } else { 2 };
                 let mut m = Message::response();
                 let k = 1 + rng.usize(2);
                 for _ in 0..k {
-                    let v6 = topo == 1 && rng.chance(1, 2);
+                    let v6 = (topo == 1 || topo == 3) && rng.chance(1, 2);
                     let ip: IpAddr = if v6 {
-                        IpAddr::from([0xfe80, 0, 0, 0, 0, 0, 0, 0x60 + rng.below(3) as u16])
+                        IpAddr::from([0xfe80, 0, 0, 0, 0, 0, 0, if ifi == 3 { 0x70 } else { 0x60 } + rng.below(3) as u16])
                     } else if ifi == 3 {
                         IpAddr::from([192, 168, 1, 60 + rng.below(3) as u8])
                     } else {
@@ -217,7 +219,7 @@ pub fn scenario(seed: u64, stepping: Option<Stepping>) -> Made {
                         IpAddr::V4(a) => wire::a(&on, 0, a.octets()),
                         IpAddr::V6(a) => wire::aaaa(&on, 0, a.octets()),
                     });
-                    let ifi = if matches!(ip, IpAddr::V4(a) if a.octets()[0] == 192) { 3 } else { 2 };
+                    let ifi = if matches!(ip, IpAddr::V4(a) if a.octets()[0] == 192) || matches!(ip, IpAddr::V6(a) if a.octets()[15] >= 0x70) { 3 } else { 2 };
                     let src = if ifi == 3 { sock4([192, 168, 1, 60], 5353) } else { scen::peer4(60) };
                     w.inject_msg(h, ifi, src, &m);
                     desc.push_str(&format!(" @{t}:goodbye({ip})"));
@@ -369,7 +371,8 @@ pub fn monitor(made: &Made, l: &mut Local) {
             }
             // received again at the very instant it ran out: whether the daemon saw it end or saw it refreshed is the
             // order of two things at one instant
-            if addr_lives.iter().any(|(oid, other)| *oid == *id && other.from == life.until) {
+            // (or, on a daemon that is woken late, within that lateness after it)
+            if addr_lives.iter().any(|(oid, other)| *oid == *id && other.from >= life.until && other.from <= life.until + sl) {
                 continue;
             }
             // the record must have been known to this search (received or cached while it was open)
